@@ -119,7 +119,16 @@ func domains() []domain {
 		return pick(r, [3]int{}, [3]int{1, 2, 3}, [3]int{1, 2, 4}, [3]int{0, 0, 1})
 	})
 	add("slice", []int(nil), func(r *vmon.Rng) interface{} {
-		return pick(r, []int(nil), []int{}, []int{1}, []int{1}, []int{1, 2}, []int{2, 1}, make([]int, 0, 8))
+		// among them windows of one backing array: same first element, different lengths
+		return pick(r, []int(nil), []int{}, []int{1}, []int{1}, []int{1, 2}, []int{2, 1}, make([]int, 0, 8),
+			sliceBase[:0], sliceBase[:2], sliceBase[:4], sliceBase[:2:2], sliceBase[1:3], sliceBase[:0:0])
+	})
+	add("slice of zero-size elements", []struct{}(nil), func(r *vmon.Rng) interface{} {
+		return pick(r, []struct{}(nil), []struct{}{}, structSliceBase[:1], structSliceBase[:3], make([]struct{}, 3), make([]struct{}, 1))
+	})
+	add("pointer to slice", (*[]int)(nil), func(r *vmon.Rng) interface{} {
+		a, b, c, d := sliceBase[:2], sliceBase[:4], []int{1, 2}, []int(nil)
+		return pick(r, (*[]int)(nil), &a, &b, &c, &d)
 	})
 	add("map", map[string]int(nil), func(r *vmon.Rng) interface{} {
 		return pick(r, map[string]int(nil), map[string]int{}, map[string]int{"a": 1}, map[string]int{"a": 1}, map[string]int{"a": 2}, map[string]int{"a": 1, "b": 2})
@@ -233,6 +242,10 @@ func show(v interface{}) string {
 	}
 	return fmt.Sprintf("%#v", v)
 }
+
+var sliceBase = []int{1, 2, 3, 4}
+
+var structSliceBase = make([]struct{}, 5)
 
 func TestC18(t *testing.T) {
 	rep := vmon.NewReport("C18")
